@@ -533,6 +533,7 @@ add_constructor('!rec:', _rec_constructor_md)
 
 def _node_representer(dumper, node):
     from .nodes.bind import BindNode
+    from .nodes.function import FunctionNode
     tag, metadata, data = node.ayns.represent()
     if data is None:
         assert not tag
@@ -572,7 +573,15 @@ def _node_representer(dumper, node):
         default = type_defaults[f] if f != 'safe' else None # the default of "safe" belongs to the source being loaded, not to the node
         if current is not None:
             # a value stated by an enclosing node is what the re-parsed node inherits, the type default only applies without one
-            if current == (parent if parent is not None else default):
+            redundant = current == (parent if parent is not None else default)
+            if f == 'delete':
+                if isinstance(node, FunctionNode):
+                    redundant = current # set by the constructor itself, whatever the enclosing nodes say
+                elif current:
+                    redundant = False # an explicit delete also asks to remove the key should the merged node end up empty
+                elif parent is None and isinstance(node, ComposedNode):
+                    redundant = False # children inherit an explicit value, a type default is not handed down
+            if redundant:
                 del metadata[f]
         else:
             del metadata[f]
